@@ -89,6 +89,9 @@ def run(model, rep):
     # ---------------- VAL: hoisting end to end - the real minify() with only hoist_literals on, on probe modules, then de-hoisted by the checker (hoist_e2e)
     from . import hoist_e2e
     hoist_e2e.run(model, rep, 'C06.VAL')
+    from . import slot_e2e
+    rep.rule('C06.SLOT', 'every expression slot of the grammar x every way an expression holds a repeated literal, as a module of its own through minify(hoist_literals=True): de-hoists to the original')
+    slot_e2e.run(model, rep, 'C06.SLOT', 'hoist', 90, 1000)
 
     # ---------------- white-box rules: written against internal functions / classes of the hoister; not evaluated when those do not exist under
     # their names - C06.VAL decides the behaviour end to end
